@@ -48,3 +48,14 @@ Definition args_lit : Type := (list rslice * N * N)%type.
 Definition model_lit (a : args_lit) : bool := let '(rs, x, y) := a in is_source_slice_literal rs x y.
 Definition check_lit (a : args_lit) (exp : bool) : bool := Bool.eqb (model_lit a) exp.
 Definition case_t_lit : Type := (N * args_lit * bool)%type.
+
+(** group [lexlegacy] (one-off validation of the pre-repair model, see bin/c15_legacy_tie): the
+    harness built against the tree with fix 7ed96a0 reverted vs [iter_segments_legacy] (wrapping build) *)
+Definition model_lexlegacy (a : args_lex) : option (list seg) :=
+  match iter_segments_legacy false (fst a) (snd a) with
+  | Some gs => Some (map seg_view (gs ++ [eof_seg gs]))
+  | None => None
+  end.
+Definition check_lexlegacy (a : args_lex) (exp : option (list seg)) : bool :=
+  opt_eqb (list_eqb seg_eqb) (model_lexlegacy a) exp.
+Definition case_t_lexlegacy : Type := case_t_lex.
